@@ -111,7 +111,7 @@ def byte_attack(ctx, T, rng, thorough):
     conn.register_message_callback(lambda *a: got.append(a))
     proto = YncaProtocol(conn._call_registered_message_callbacks, None, 5)
     lines = []
-    n = 3000 if thorough else 300
+    n = 30000 if thorough else 300
     for i in range(n):
         r = rng.random()
         if r < 0.2:
